@@ -1,50 +1,40 @@
 (* Tie_C11.v — translator tie (T) for C11.  Compiled on every run of ./check C11 against
    GTgen.BitSetGen, the Gallina file regenerated from set/bit_set.go of the current tree by
-   harness/cmd/xlate_bitset.  Each lemma states that a regenerated function equals the
-   hand-written model the theorems of Props/C11.v are about — so those theorems hold of what
-   the source says now.  An edit to bit_set.go that changes its meaning (or leaves the
-   translator's subset) breaks this file. *)
-From Coq Require Import NArith List Bool.
+   harness/cmd/xlate_bitset.  Each lemma states, for ALL arguments, that a regenerated function
+   equals the hand-written model the theorems of Props/C11.v are about — so those theorems hold
+   of what the source says now.
+
+   The proofs do not depend on the shape of the regenerated terms (tactics of
+   Base/SetLoopTie.v: loop simulation with the state map found among the tuple
+   re-arrangements, case split on boolean atoms, induction for early-return loops): renamed
+   locals, extracted or inlined helpers, index loops, `if c {f = true}` for `f = f || c`,
+   early-continue, MakeBitSet through Add … leave them intact.  An edit to bit_set.go that
+   changes the meaning of a function (or leaves the translator's subset) breaks this file.   *)
+From Coq Require Import NArith List Bool Arith.
 Import ListNotations.
-From GT Require Import BitSetModel.
+From GT Require Import Base.SetLoopTie BitSetModel.
 From GTgen Require Import BitSetGen.
-Local Open Scope N_scope.
+
+Ltac prep := intros; gen_unfold; unfold bs_make, bs_add, bs_remove, bs_maskof, bs_has, bs_add_step, bs_remove_step; cbv zeta.
 
 Lemma tie_MakeBitSet : forall items, gen_MakeBitSet items = bs_make items.
-Proof. reflexivity. Qed.
+Proof. prep. fold_tie_g. Qed.
 
 Lemma tie_Add : forall items s, gen_Add s items = bs_add s items.
-Proof.
-  intros items s. unfold gen_Add, bs_add. cbv zeta. generalize false. revert s.
-  induction items as [|f fs IH]; intros s b; [reflexivity|].
-  cbn [fold_left]. cbv beta iota. rewrite IH. reflexivity.
-Qed.
+Proof. prep. fold_tie_g. Qed.
 
 Lemma tie_Remove : forall items s, gen_Remove s items = bs_remove s items.
-Proof.
-  intros items s. unfold gen_Remove, bs_remove. cbv zeta. generalize false. revert s.
-  induction items as [|f fs IH]; intros s b; [reflexivity|].
-  cbn [fold_left]. cbv beta iota. rewrite IH. reflexivity.
-Qed.
+Proof. prep. fold_tie_g. Qed.
 
 Lemma tie_MaskOf : forall s f, gen_MaskOf s f = bs_maskof s f.
-Proof. reflexivity. Qed.
+Proof. prep. bool_crush. Qed.
 
 Lemma tie_Has : forall s f, gen_Has s f = bs_has s f.
-Proof. reflexivity. Qed.
+Proof. prep. bool_crush. Qed.
 
 Lemma tie_HasAny : forall flags s, gen_HasAny s flags = bs_hasany s flags.
 Proof.
-  intros flags s. unfold gen_HasAny.
-  match goal with |- context [fold_left ?F _ _] => set (FF := F) end.
-  assert (Hsome : forall fl r, fold_left FF fl (tt, Some r) = (tt, Some r)).
-  { induction fl as [|f fs IH]; intros r; [reflexivity|]. cbn [fold_left]. apply IH. }
-  assert (H : forall fl, fold_left FF fl (tt, None)
-                         = (tt, if bs_hasany s fl then Some true else None)).
-  { induction fl as [|f fs IH]; [reflexivity|]. cbn [fold_left bs_hasany].
-    unfold FF at 2. cbv beta iota. change (gen_Has s f) with (bs_has s f).
-    destruct (bs_has s f); [apply Hsome | apply IH]. }
-  rewrite H. destruct (bs_hasany s flags); reflexivity.
+  prep. loop_tie_with ltac:(cbn [loop_ret bs_hasany]; unfold bs_has).
 Qed.
 
 Definition TIE_C11_OK := (tie_MakeBitSet, tie_Add, tie_Remove, tie_MaskOf, tie_Has, tie_HasAny).
